@@ -22,6 +22,8 @@ class Opts:
         self.recursion = True      # list recursion templates
         self.exotic_atoms = False  # quoted atoms with odd characters (needs full repr model)
         self.max_preds = 5
+        self.cut_tail = 0.0        # probability that a clause body gets a cut as its LAST goal
+        self.forwarders = 0.0      # probability that a clause is a pure forwarder  p(..) :- q(..).
         self.open_leaves = 0.0     # probability that a leaf fact's argument is a structure with fresh variables
         self.deep = False
         self.__dict__.update(kw)
@@ -243,6 +245,13 @@ def gen_program(rng, o):
                     head.append(rand_sterm(rng, o, vars_, 2 if not o.deep else 4))
             size = rng.choice([0, 1, 1, 2, 2, 3, 4, 5] if not o.deep else [1, 2, 3, 5, 7, 9])
             body = ['true'] if size == 0 else rand_body(rng, o, callees, vars_, size)
+            if o.forwarders and callees and rng.random() < o.forwarders:
+                cn, car = rng.choice(callees)
+                if cn not in ('mem', 'app', 'len'):
+                    hv = [a for a in head if a[0] == 'var' and a[1] != '_']
+                    body = ['call', cn, [(rng.choice(hv) if hv and rng.random() < 0.8 else rand_sterm(rng, o, vars_, 1)) for _ in range(car)]]
+            if o.cut and o.cut_tail and rng.random() < o.cut_tail and body not in (['true'], ['fail']):
+                body = ['and', body, ['cut']]
             clauses.append([name, head, body])
     for k, (name, ar) in enumerate(leaves):
         nsol = rng.choice([0, 1, 2, 3]) if k > 0 else rng.choice([1, 2, 3])
